@@ -87,6 +87,61 @@ def arity_error(prog: Program, res: "Resolver", call: ast.Call, fn: FuncInfo) ->
     return None
 
 
+def argtype_error(prog: Program, res: "Resolver", call: ast.Call, fn: FuncInfo) -> Optional[str]:
+    """A positional argument whose inferred type cannot be what the parameter is annotated with: an object of a
+    package class handed to a parameter annotated as a tuple / list / dict (or the reverse), or an object of a package
+    class unrelated to the annotated one.  Only for calls that resolve to exactly one package function; None when
+    nothing is certain (no annotation, no inferred type, Any / Optional of something else ...)."""
+    if any(isinstance(a, ast.Starred) for a in call.args) or not call.args:
+        return None
+    try:
+        ct = res.resolve_call(call, fn)
+    except Exception:
+        return None
+    if ct.unresolved or ct.ext or len(ct.funcs) != 1:
+        return None
+    g = ct.funcs[0]
+    if g.is_lambda or g.node.decorator_list and not (g.is_static or g.is_classmethod):
+        return None
+    a = g.node.args
+    params = a.posonlyargs + a.args
+    skip = 1 if (ct.bound_self or ct.ctor is not None) and params and params[0].arg in ("self", "cls") else 0
+    params = params[skip:]
+
+    def shape(ts):
+        kinds = set()
+        for t in ts:
+            if t[0] == "inst" and isinstance(t[1], ClassInfo):
+                kinds.add(("inst", t[1]))
+            elif t[0] == "seq":
+                kinds.add(("seq", None))
+            else:
+                return None          # external / unknown component: nothing certain
+        return kinds or None
+
+    for i, arg in enumerate(call.args):
+        if i >= len(params) or params[i].annotation is None:
+            continue
+        want = shape(res.ann_types(g.module, params[i].annotation))
+        try:
+            got = shape(res.expr_types(arg, fn))
+        except Exception:
+            got = None
+        if not want or not got:
+            continue
+        ok = False
+        for k1, c1 in got:
+            for k2, c2 in want:
+                if k1 == k2 == "seq":
+                    ok = True
+                elif k1 == k2 == "inst" and (prog.is_subclass(c1, c2) or prog.is_subclass(c2, c1)):
+                    ok = True
+        if not ok:
+            return "argument %d of %s is %s where a %s is expected" % (
+                i + 1, g.short, "/".join(sorted(c.name if c else "sequence" for _, c in got)), "/".join(sorted(c.name if c else "sequence" for _, c in want)))
+    return None
+
+
 class Resolver:
     def __init__(self, prog: Program):
         self.prog = prog
